@@ -98,6 +98,13 @@ class Folder:
             return res
         if isinstance(e, ast.Call):
             fn = unparse(e.func)
+            if fn in ("chr", "ord", "range", "len", "str") and not e.keywords:
+                args = [f(a, loc) for a in e.args]
+                if fn == "range":
+                    if all(isinstance(a, int) for a in args) and (len(args) < 2 or abs(args[1] - args[0]) < 100000):
+                        return list(range(*args))
+                    raise NotConstant("range too large")
+                return {"chr": chr, "ord": ord, "len": len, "str": str}[fn](*args)
             if fn in ("frozenset", "set", "tuple", "list", "sorted", "dict") and not e.keywords:
                 args = [f(a, loc) for a in e.args]
                 if fn in ("frozenset", "set"):
